@@ -39,7 +39,7 @@ ASSUMPTIONS = [
     "ties between decoders that return equal dictionaries are accepted for previous_success_decoder",
     "an exception escaping the AutoDecoder is C15's violation; it is additionally a C12 violation only when some decoder accepts the payload (a result was owed)",
 ]
-MUST_FIRE = {"quick": ["meter_swap_steps", "nobody_accepts_steps", "sticky_steps", "own_decoder_histories", "lockstep_hdlc", "lockstep_dlms"], "thorough": ["meter_swap_steps", "nobody_accepts_steps", "sticky_steps", "own_decoder_histories", "lockstep_hdlc", "lockstep_dlms"]}
+MUST_FIRE = {"quick": ["meter_swap_steps", "nobody_accepts_steps", "sticky_steps", "own_decoder_histories", "lockstep_hdlc", "lockstep_dlms", "bystander_decoder_instance"], "thorough": ["meter_swap_steps", "nobody_accepts_steps", "sticky_steps", "own_decoder_histories", "lockstep_hdlc", "lockstep_dlms"]}
 
 
 def gen(rng, tier, index):
@@ -52,12 +52,12 @@ def gen(rng, tier, index):
         for _ in range(n):
             e = rng.choice(same)
             hist.append({"data": e["data"].hex(), "k": "genuine", "src": e["name"]})
-        yield {"history": hist, "own": messages.own_decoder(e0)}
+        yield {"history": hist, "own": messages.own_decoder(e0), "bystander": rng.randrange(1, 32) if rng.random() < 0.3 else 0}
         return
     for _ in range(n):
         data, desc = messages.draw_payload(rng)
         hist.append({"data": data.hex(), "k": desc["k"], "src": desc.get("src")})
-    yield {"history": hist, "own": None}
+    yield {"history": hist, "own": None, "bystander": rng.randrange(1, 32) if rng.random() < 0.2 else 0}
 
 
 _ACCEPT_CACHE: dict = {}
@@ -85,6 +85,8 @@ def execute(sc):
 
     d1 = AutoDecoder()
     d2 = AutoDecoder()
+    bystander = AutoDecoder() if sc.get("bystander") else None  # another meter's decoder in the same process
+    pool = messages.corpus()
     last = None
     viol = []
     probes = {}
@@ -104,6 +106,11 @@ def execute(sc):
     interesting = 0
     for step, item in enumerate(sc["history"]):
         payload = bytes.fromhex(item["data"])
+        if bystander is not None:
+            try:
+                bystander.decode_message_payload(pool[(step * 5 + sc["bystander"]) % len(pool)]["data"])
+            except Exception:  # noqa: BLE001
+                pass
         acc = acceptors(payload)
         states.add((last, tuple(sorted(acc))))
         try:
@@ -173,6 +180,8 @@ def execute(sc):
                 add("M5", f"decode_message-differs {kind}", f"step {step}: decode_message -> {name2 if r2 is not None else None}, decode_message_payload -> {name if r1 is not None else None}")
         if viol:
             break
+    if bystander is not None:
+        bump("bystander_decoder_instance")
     if sc.get("own") and not void and not viol:
         bump("own_decoder_histories")
         if name != sc["own"]:
@@ -196,6 +205,8 @@ def summarise(sc):
 
 
 def candidates(sc):
+    if sc.get("bystander"):
+        yield dict(copy.deepcopy(sc), bystander=0)
     for red in shrink.list_reductions(sc["history"]):
         if red:
             yield dict(copy.deepcopy(sc), history=red)
